@@ -124,6 +124,8 @@ def _bytearray(*args):
         return args[0].copy(mutable=True)
     if args and _real_isinstance(args[0], SymBase):
         raise Unsupported("bytearray(symbolic)")
+    if sym.have_ctx() and (not args or (_real_isinstance(args[0], (_b.bytes, _b.bytearray)) and _real_len(args[0]) == 0)):
+        return SymBytes.empty(mutable=True)
     return _b.bytearray(*args)
 
 
